@@ -204,7 +204,7 @@ def tri(it: M.Interp, premise: Formula, conclusion: Formula) -> tuple[str, "dict
     for a in sorted(names_):
         if a.startswith(NAME_RELATIONAL) and M.mentions(a, E) and M.valid(M.subst_atom(premise, a, int_atom), M.subst_atom(conclusion, a, int_atom), cons):
             return "undecided", {a: True}
-    soft = sorted(a for a in names_ if not is_canonical(a) and (a.startswith(NAME_RELATIONAL) or not (M.mentions(a, E) or any(M.mentions(a, f"x{i}") for i in range(6)))))
+    soft = sorted(a for a in names_ if not is_canonical(a) and not about_entry_options(it, a) and (a.startswith(NAME_RELATIONAL) or not (M.mentions(a, E) or any(M.mentions(a, f"x{i}") for i in range(6)))))
     hard = sorted(names_ - set(soft))
     for env_h in M.assignments(hard):
         any_premise = False
@@ -229,6 +229,22 @@ def tri(it: M.Interp, premise: Formula, conclusion: Formula) -> tuple[str, "dict
     return "undecided", None
 
 
+_OPS = {"Eq", "NotEq", "Gt", "GtE", "Lt", "LtE", "Is", "IsNot", "In", "NotIn", "None", "True", "False", "Add", "Sub"}
+
+
+def about_entry_options(it: M.Interp, a: str) -> bool:
+    """A free atom that only talks about parameters of the scan entry point (`ISNONE[level_limit]`): a fact about the
+    configuration that can be true or false - a verdict that fails for one of its values fails for a real configuration."""
+    import re
+
+    m = re.fullmatch(r"(ISNONE|T|EQ|IS|CMP)\[(.*)\]", a)
+    if m is None:
+        return False
+    body = re.sub(r"'[^']*'|\"[^\"]*\"", "", m.group(2))
+    ids = [t for t in re.findall(r"[A-Za-z_][A-Za-z0-9_]*", body) if t not in _OPS]
+    return bool(ids) and all(t in it.entry.param_names for t in ids)
+
+
 def fmt_env(env: "dict | None", only: "set[str] | None" = None) -> str:
     if not env:
         return ""
@@ -249,8 +265,12 @@ def strip_unrelated(it: M.Interp, c: M.Coll) -> M.Coll:
     for p in c.parts:
         if p.kind == "filter" and p.src is not None:
             src = strip_unrelated(it, p.src)
+            if p.guard == FALSE:
+                continue
             if not e_atoms(it, p.guard) and not any(is_canonical(a) for a in atoms_of(p.guard)):
-                parts += src.parts  # same elements, whatever the options
+                # same elements, whatever the options (the path condition under which the filter runs stays)
+                path = strip_elem(p.guard, p.sym)
+                parts += [M.Part(q.kind, conj([q.guard, path]), q.base, q.src, q.sym, q.what, q.items, q.fi, q.node, q.partial, q.loop) for q in src.parts]
             else:
                 parts.append(M.Part(p.kind, p.guard, p.base, src, p.sym, p.what, p.items, p.fi, p.node, p.partial, p.loop))
         elif p.kind == "adds" and p.src is not None:
